@@ -299,3 +299,122 @@ def outcome_of(call, LOG):
     except Exception as e:  # noqa: BLE001  (BaseException must propagate: engine control flow)
         return ("EXC", type(e).__name__), None
     return ("ran", LOG[0][0] if LOG else None), res
+
+
+# ---------------------------------------------------------------------------
+# generalised rule over arbitrary annotation terms
+
+
+class GRule:
+    """Documented resolution rule for methods whose supplied-position annotations are arbitrary terms.
+    sup[m]   : tuple of annotation terms on the supplied positions of the call
+    args     : tuple of argument descriptors (one per supplied position)
+    app(t,a) : z3 -- argument a matches annotation t      le(t,u) : z3 -- t is the same as or more specific than u
+    """
+
+    def __init__(self, sup, args, P, app, le, sigkey=None, eligible=None):
+        self.sup, self.args, self.P = sup, args, P
+        self.M = len(sup)
+        self.appf, self.lef = app, le
+        self.sigkey = sigkey or list(sup)
+        self.eligible = eligible or [True] * self.M
+        self._app = [self._mk_app(m) for m in range(self.M)]
+
+    def _mk_app(self, m):
+        if not self.eligible[m]:
+            return z3.BoolVal(False)
+        return z3.And([self.appf(t, a) for t, a in zip(self.sup[m], self.args)] + [z3.BoolVal(True)])
+
+    def app(self, m):
+        return self._app[m]
+
+    def moresp(self, a, b):
+        return z3.And([self.lef(x, y) for x, y in zip(self.sup[a], self.sup[b])] + [z3.BoolVal(True)])
+
+    def beats(self, a, b):
+        P = self.P
+        if self.sigkey[a] == self.sigkey[b]:
+            return z3.Or(P[a] > P[b], z3.And(P[a] == P[b], z3.BoolVal(a > b)))
+        if self.sup[a] == self.sup[b]:
+            return P[a] > P[b]
+        return z3.Or(P[a] > P[b], z3.And(P[a] == P[b], self.moresp(a, b)))
+
+    def wins(self, a, among=None):
+        among = range(self.M) if among is None else among
+        return z3.And([self._app[a]] + [z3.Implies(self._app[b], self.beats(a, b)) for b in among if b != a])
+
+    def any_app(self, among=None):
+        among = range(self.M) if among is None else among
+        return z3.Or([self._app[m] for m in among] + [z3.BoolVal(False)])
+
+    def any_win(self, among=None):
+        among = list(range(self.M) if among is None else among)
+        return z3.Or([self.wins(m, among) for m in among] + [z3.BoolVal(False)])
+
+    def dontcare(self, among=None):
+        """two applicable top-priority methods with identical supplied annotations but different signatures"""
+        among = list(range(self.M) if among is None else among)
+        dc = []
+        for a in among:
+            for b in among:
+                if a < b and self.eligible[a] and self.eligible[b] and self.sup[a] == self.sup[b] and self.sigkey[a] != self.sigkey[b]:
+                    top = z3.And([z3.Implies(self._app[c], self.P[a] >= self.P[c]) for c in among])
+                    dc.append(z3.And(self._app[a], self._app[b], self.P[a] == self.P[b], top))
+        return z3.Or(dc) if dc else z3.BoolVal(False)
+
+
+def levels_mechanism(ctx, rule, regs, a, among=None):
+    """Mechanism of the recorded finding C02-integer-levels, reconstructed from the model through
+    decide() (its literals join the path condition).  ovld ranks a candidate by the index of the
+    topological layer of each of its registered types among the *applicable registered types at that
+    position* (types of ALL methods registered at the position, eligible for this call or not):
+    layer(t) = (number of layers - 1) - (length of the longest chain of applicable registered types
+    strictly below t).  Returns True iff method `a` has maximal priority among the applicable methods
+    in `among` and, against every applicable rival of equal priority, either (other signature) its layer
+    tuple is pointwise >= and different, or (identical signature) it is the later one -- i.e. exactly
+    when the integer comparison makes `a` dominate although the subclass order does not.
+    regs[k]: list of distinct annotation terms registered at supplied position k."""
+    D = ctx.decide
+    among = list(range(rule.M) if among is None else among)
+    lv = []
+    for pos, arg in enumerate(rule.args):
+        appl = [t for t in regs[pos] if D(rule.appf(t, arg))]
+        h = {}
+
+        def height(t, appl=appl, h=h):
+            if t not in h:
+                below = [u for u in appl if u != t and D(rule.lef(u, t)) and not D(rule.lef(t, u))]
+                h[t] = 1 + max((height(u) for u in below), default=-1)
+            return h[t]
+
+        L = 1 + max((height(t) for t in appl), default=0)
+        lv.append({t: L - 1 - height(t) for t in appl})
+
+    def lt(m):
+        return tuple(lv[k][rule.sup[m][k]] for k in range(len(rule.args)))
+
+    appc = {m: rule.eligible[m] and all(rule.sup[m][k] in lv[k] for k in range(len(rule.args))) for m in among}
+    if not appc.get(a):
+        return False
+    P = rule.P
+    for b in among:
+        if b == a or not appc[b]:
+            continue
+        if D(P[b] > P[a]):
+            return False
+        if D(P[b] == P[a]):
+            if rule.sigkey[a] == rule.sigkey[b]:
+                if b > a:
+                    return False
+            else:
+                la, lb = lt(a), lt(b)
+                if not (all(x >= y for x, y in zip(la, lb)) and la != lb):
+                    return False
+    return True
+
+
+def class_rule(W, mtypes, argcls, P, sigkey=None, eligible=None):
+    """GRule for plain class annotations given as class indexes (W.n = object)"""
+    n = W.n
+    return GRule([tuple(t for t in mt) for mt in mtypes], tuple(argcls), P,
+                 app=lambda t, c: W.rel(c, t), le=lambda t, u: W.rel(t, u), sigkey=sigkey, eligible=eligible)
